@@ -4,6 +4,7 @@ package queues
 // vapi_replay.go supplies native bodies for replay builds.
 
 func vNondetInt() int
+func vNondetRange(lo, hi int) int
 func vNondetBool() bool
 func vNondetUint8() uint8
 func vNondetString() string
